@@ -30,6 +30,7 @@ structure LTXFile where
   salt2 : Nat := 0
   pages : List (Nat × ByteArray)
   old : Bool := false     -- modification time before the retention cut-off
+  nodeID : Nat := 0       -- identity of the node that created the file (0 = not tracked)
 
 structure WalSt where
   offset : Nat := 0
